@@ -89,4 +89,36 @@ theorem pipelineExample_safe :
        .assign (some 1) (.bin .sub (some 0) (.var 0) (some 10) (.var 10)),
        .ret (some 1) (.var 1)]⟩).ok = true := by decide
 
+/-! ## divisions -/
+
+/-- `v0 = p10 / p11; v1 = v0 + 1; return v1`: the division is propagated into the return, nothing can be observed
+    before it is evaluated there -/
+def divisionExample : Block :=
+  ⟨[10, 11],
+   [.assign (some 0) (.bin .div (some 10) (.var 10) (some 11) (.var 11)),
+    .assign (some 1) (.bin .add (some 0) (.var 0) none (.const 1)),
+    .ret (some 1) (.var 1)]⟩
+
+theorem divisionExample_safe : SafeBlock divisionExample ∧
+    (propagate divisionExample).stmts =
+      [.ret (some 1) (.bin .add (some 0) (.bin .div (some 10) (.var 10) (some 11) (.var 11)) none (.const 1))] := by
+  decide
+
+/-- `v0 = p10 / p11; v1 = f1(p10); return v1 + v0` -/
+def divisionBehindCall : Block :=
+  ⟨[10, 11],
+   [.assign (some 0) (.bin .div (some 10) (.var 10) (some 11) (.var 11)),
+    .assign (some 1) (.call 1 (some 10) (.var 10)),
+    .ret (some 2) (.bin .add (some 1) (.var 1) (some 0) (.var 0))]⟩
+
+/-- the pass moves the division behind the call: `return f1(p10) + p10 / p11` -/
+theorem division_behind_call_output :
+    (propagate divisionBehindCall).stmts =
+      [.ret (some 2) (.bin .add (some 1) (.call 1 (some 10) (.var 10))
+                               (some 0) (.bin .div (some 10) (.var 10) (some 11) (.var 11)))] := by decide
+theorem division_behind_call_before : divisionBehindCall.run javaSem env50 = .throw [] := by decide
+theorem division_behind_call_after : (propagate divisionBehindCall).run javaSem env50 = .throw [(1, 5)] := by decide
+theorem division_behind_call_not_safe : ¬ SafeBlock divisionBehindCall := by decide
+theorem dead_division_not_safe : (dcePass deadDivision).ok = false := by decide
+
 end AgVerif.Propagate
